@@ -70,10 +70,11 @@ TCheckDcSignature == /\ Is("CheckDcSignature")
                      /\ E.from = 0 /\ E.to = DcSigAt(C, V, N) /\ E.sigAt = DcSigAt(C, V, N) /\ E.sigLen = SigLen(V) /\ E.ok
                      /\ Keep /\ Adv
 \* RoT hash: from the credential bytes = reference construction from the keys (fixed-width coordinates, hashlib) = what the DC object
-\* reports = image tools (tools: RoT calculator of the family; tools2: certificate block v2.1 built over the same keys)
+\* reports (dc: the created object, dc2: the object parsed back) = image tools (tools: RoT calculator of the family; tools2:
+\* certificate block v2.1 built over the same keys)
 \* (ele2: the SRK table travels in the response; the credential object has no RoT hash: dc = "n/a")
 TCheckRotHash == /\ Is("CheckRotHash")
-                 /\ (RotHashDefined(V) \/ C = "ele2" => /\ E.fromBytes = E.ref /\ E.tools \in {"n/a", E.ref} /\ E.tools2 \in {"n/a", E.ref}
+                 /\ (RotHashDefined(V) \/ C = "ele2" => /\ E.fromBytes = E.ref /\ E.tools \in {"n/a", E.ref} /\ E.tools2 \in {"n/a", E.ref} /\ E.dc2 \in {"n/a", E.ref}
                                                         /\ (IF C = "ele2" THEN E.dc = "n/a" ELSE E.dc = E.ref))
                  /\ Keep /\ Adv
 \* the challenge of the device (built by the twin) is read correctly by the host
@@ -132,7 +133,8 @@ TNext == \/ TCase \/ TSkip \/ TCreateRefused \/ TCreate \/ TDcLayout \/ TDcField
          \/ TCheckRotHash \/ TDac \/ TRespondRefused \/ TRespond \/ TDarLayout \/ TDarFields \/ TCheckResponseSignature \/ TDeliver
          \/ TAttempt \/ THistory \/ TTamper \/ TDone
 Constr == IF TLCGet(tid) < l THEN TLCSet(tid, l) ELSE TRUE
-Post == \A i \in 1..Len(Traces) :
+Post == /\ PrintT(<<"DONE", Len(Traces)>>)
+        /\ \A i \in 1..Len(Traces) :
           \/ TLCGet(i) - 1 = Len(Traces[i].ev)
           \/ PrintT(<<"REJ", Traces[i].id, TLCGet(i) - 1, Len(Traces[i].ev),
                       Traces[i].ev[IF TLCGet(i) <= Len(Traces[i].ev) THEN TLCGet(i) ELSE Len(Traces[i].ev)].e>>)
